@@ -72,6 +72,16 @@ def check_parity(case):
                 f"{ev['rows']}, group rows {ev['groups'][grp]}) = {exp!r}"
             )
 
+    # a predictor that hands out its stored prediction vector by reference: gamma must not modify the caller's
+    # array, and evaluating the same predictor again gives the same answer
+    stored = np.asarray(h, dtype=np.float64).copy()
+    g_first = np.asarray(m.gamma(lambda X: stored).to_numpy(), dtype=float)
+    need(bool(np.array_equal(stored, np.asarray(h, dtype=np.float64))),
+         f"gamma modified the prediction array returned by the predictor: {stored.tolist()} (was {list(h)})")
+    g_again = np.asarray(m.gamma(lambda X: stored).to_numpy(), dtype=float)
+    need(bool(np.allclose(g_first, vals, rtol=0, atol=1e-12)) and bool(np.array_equal(g_first, g_again)),
+         "gamma of the same prediction vector differs between calls")
+
     # (c) bound() = configured slack on every entry
     b = MC.as_series(m.bound(), "bound()")
     bents = MC.split_index(b.index, "bound().index")
@@ -185,7 +195,7 @@ def check_bgl(case):
     y = MC._wrap(case, "y", "lab")
     sf = MC._wrap(case, "sf", "grp")
     m = BoundedGroupLoss(MC.make_loss(case["loss"]), upper_bound=case["upper_bound"])
-    m.load_data(X, y, sensitive_features=sf)
+    MC.load_reloaded(m, case, warm=lambda mm: mm.gamma(MC.predictor(case["h"])), only_sf=True)
     g = MC.as_series(m.gamma(MC.predictor(case["h"])), "BoundedGroupLoss.gamma(h)")
     loss = MC.ref_loss(case["loss"], case["y"], case["h"])
     groups = MC.group_rows(case["sf"])
@@ -216,9 +226,7 @@ def check_bgl(case):
 
 
 def check_error_rate(case):
-    m = MC.make_error_rate(case["costs"])
-    X, y, kw = MC.build_data(case)
-    m.load_data(X, y, **kw)
+    m = MC.load_reloaded(MC.make_error_rate(case["costs"]), case, warm=lambda mm: (mm.signed_weights(), mm.gamma(MC.predictor(case["h"]))))
     g = MC.as_series(m.gamma(MC.predictor(case["h"])), "ErrorRate.gamma(h)")
     need(len(g) == 1, f"ErrorRate.gamma has {len(g)} entries, expected a single one: {g.to_dict()}")
     need(len(list(m.index)) == 1, f"ErrorRate.index = {list(m.index)}")
